@@ -138,6 +138,7 @@ real_sentinels!(sentinels_f64, f64);
 
 #[kani::proof]
 #[kani::unwind(9)]
+#[kani::stub(<[u8]>::is_ascii, stub_is_ascii)]
 pub fn bool_character_expression() {
     let b: bool = kani::any();
     let mut out = Out::new();
@@ -169,6 +170,7 @@ pub fn bool_character_expression() {
 /// emitted text (its first byte is then a constant and only the expression reader is walked).
 #[kani::proof]
 #[kani::unwind(10)]
+#[kani::stub(<[u8]>::is_ascii, stub_is_ascii)]
 pub fn expression_roundtrip() {
     let p: [u8; 3] = kani::any();
     let s = any_prefix(&p);
@@ -245,6 +247,7 @@ macro_rules! string_case {
 }
 #[kani::proof]
 #[kani::unwind(12)]
+#[kani::stub(<[u8]>::is_ascii, stub_is_ascii)]
 pub fn string_n3() {
     let p: [u8; 3] = kani::any();
     kani::cover!(p[0] == b'"' && p[2] == b'"');
@@ -255,6 +258,7 @@ pub fn string_n3() {
 }
 #[kani::proof]
 #[kani::unwind(20)]
+#[kani::stub(<[u8]>::is_ascii, stub_is_ascii)]
 pub fn string_n6() {
     let p: [u8; 6] = kani::any();
     string_case!(p, 4);
@@ -266,6 +270,7 @@ pub fn string_n6() {
 /// the independently encoded one, proved equal to the emitted text by `string_n3`).
 #[kani::proof]
 #[kani::unwind(14)]
+#[kani::stub(<[u8]>::is_ascii, stub_is_ascii)]
 pub fn string_roundtrip_without_quote() {
     let p: [u8; 3] = kani::any();
     let s = any_prefix(&p);
@@ -287,6 +292,7 @@ pub fn string_roundtrip_without_quote() {
 /// back the doubled text.  Kept so that the finding stays identified by its witness.
 #[kani::proof]
 #[kani::unwind(14)]
+#[kani::stub(<[u8]>::is_ascii, stub_is_ascii)]
 pub fn string_roundtrip_with_quote() {
     let s: &[u8] = b"a\"b";
     let mut out = ArrFmt::new(16);
@@ -326,6 +332,7 @@ macro_rules! block_case {
 }
 #[kani::proof]
 #[kani::unwind(14)]
+#[kani::stub(<[u8]>::is_ascii, stub_is_ascii)]
 pub fn block_n11() {
     let p: [u8; 11] = kani::any();
     block_case!(p, 0, false);
@@ -337,6 +344,7 @@ pub fn block_n11() {
 }
 #[kani::proof]
 #[kani::unwind(104)]
+#[kani::stub(<[u8]>::is_ascii, stub_is_ascii)]
 pub fn block_n100() {
     let p: [u8; 100] = kani::any();
     block_case!(p, 99, false);
@@ -412,6 +420,7 @@ macro_rules! error_case {
 }
 #[kani::proof]
 #[kani::unwind(16)]
+#[kani::stub(<[u8]>::is_ascii, stub_is_ascii)]
 pub fn error_item() {
     unsafe {
         MSG = kani::any();
